@@ -352,6 +352,49 @@ def gen_send_requests(tier, seed):
     return reqs
 
 
+# ------------------------------------------------------------------ streams delivered with pauses (read side)
+CONN_EVENT = bytes.fromhex("00f600160080000c0000000000000001010000060000")
+
+
+def gen_paused_requests(tier, seed):
+    """the read-side dual of the failing writes: the peer sends whole frames back to back, but the
+    connection delivers them in pieces and between two pieces a Read fails with a deadline error
+    (the bytes came later than the client's read deadline allows).  Pause after k = 0..10 bytes of a
+    header (first message of a connection and later ones, in each connection state), inside a
+    payload, two pauses, pauses in a later frame."""
+    rnd = random.Random(seed ^ 0x9A05E)
+    thorough = tier == "thorough"
+    states = [("v2t", "conn"), ("v1t", "conn"), ("v2", "conn"), ("v2t", "conn,first"), ("v2t", NEG11), ("v2", NEG11),
+              ("v2t", "conn,first,gsv:1:1"), ("v1t", "conn,first,xchg"), ("v2t", NEG11 + ",req"),
+              ("v2t", NEG11 + ",sentclose"), ("v2t", NEG11 + ",close"), ("v2t", "conn,close"), ("v2t", "-"), ("v2t", NEG11 + ",eof")]
+    reqs = []
+    for cfg, hist in states:
+        for rep in range(3 if thorough else 1):
+            def frame():
+                plen = rnd.choice([0, 0, 2, 7, 30])
+                return wire(rnd.randrange(64), rnd.choice([61, 62, 63, 100, 1023, rnd.randrange(1024)]), 10 + plen,
+                            1000 + rnd.getrandbits(24), bytes(rnd.getrandbits(8) for _ in range(plen)))
+            first = wire(rnd.choice([1, 1, 2, rnd.randrange(64)]), 63, 10 + len(CONN_EVENT), rnd.choice([1, 1234, rnd.getrandbits(32)]), CONN_EVENT) \
+                if hist.split(",")[-1] in ("conn", "close") and "first" not in hist else frame()
+            frames = [first, frame(), frame()]
+            stream = b"".join(frames)
+            starts = [0, len(frames[0]), len(frames[0]) + len(frames[1])]
+            cuts = [[]]
+            for fi in (0, 1):
+                for k in range(11):
+                    cuts.append([starts[fi] + k])
+                cuts.append([starts[fi] + 10 + (len(frames[fi]) - 10) // 2] if len(frames[fi]) > 11 else [starts[fi] + 9])
+                for _ in range(4):
+                    a, b = sorted(rnd.sample(range(0, 11), 2))
+                    cuts.append([starts[fi] + a, starts[fi] + b])
+            cuts += [[3, 3], [rnd.randrange(1, 10), starts[2] + rnd.randrange(0, 10)], [starts[2] + 5], [1, 2, 3]]
+            for n, cut in enumerate(cuts):
+                pos = [0] + cut + [len(stream)]
+                pieces = "/".join(stream[a:b].hex() for a, b in zip(pos, pos[1:]))
+                reqs.append("rpz %s %s %s %s" % (cfg, hist, "tn"[n % 2], pieces))
+    return reqs
+
+
 def gen_requests(tier, seed):
     rnd = random.Random(seed)
     thorough = tier == "thorough"
@@ -424,6 +467,8 @@ def expand(req):
     if f[0] == "stl":
         return [dict(kind="sth", cfg=f[1], hist=f[2], request=req)] + \
                [dict(kind="stl", cfg=f[1], hist=f[2], bytes=list(bytes.fromhex(h))) for h in f[3].split(";")]
+    if f[0] == "rpz":
+        return [dict(kind="rpz", cfg=f[1], hist=f[2], errkind=f[3], pieces=f[4])]
     if f[0] == "snd":
         return [dict(kind="snd", cfg=f[1], hist=f[2], api=f[3], plen=int(f[4]), typ=t) for t in parse_types(f[5])]
     if f[0] == "wfl":
@@ -452,6 +497,8 @@ def single_request(case):
         return case["request"]
     if case["kind"] == "stl":
         return "stl %s %s %s" % (case["cfg"], case["hist"], bytes(case["bytes"]).hex())
+    if case["kind"] == "rpz":
+        return "rpz %s %s %s %s" % (case["cfg"], case["hist"], case["errkind"], case["pieces"])
     if case["kind"] == "snd":
         return "snd %s %s %s %d %d" % (case["cfg"], case["hist"], case["api"], case["plen"], case["typ"])
     if case["kind"] == "wfl":
@@ -477,6 +524,8 @@ def judge_case(case, g, o):
         return judge_state(case, g, o)
     if case["kind"] == "snd":
         return judge_send(case, g, o)
+    if case["kind"] == "rpz":
+        return judge_paused(case, g, o)
     if case["kind"] == "wfl":
         return judge_write_fault(case, g, o)
     if not case.get("batch"):
@@ -659,6 +708,40 @@ def judge_write_fault(case, g, o):
     if rep == "ok" and len(got) != 10 + ln:
         return ("write-fault:success-without-header:" + via, "%s: the write loop carried on although the peer has received only %s" % (ctx, hx or "(nothing)"), True)
     return ("model-mismatch:write-fault", "%s: %s, peer received %s (consistent with the request); the model says %s" % (ctx, rep, hx, o), False)
+
+
+def judge_paused(case, g, o):
+    """a stream delivered with pauses longer than the read deadline: whatever the client does, every
+    header it reports must be the reading of 10 consecutive bytes that start a frame of what the peer
+    sent - in order, i.e. an initial part of the frame headers"""
+    pieces = [bytes.fromhex(h) for h in case["pieces"].split("/")]
+    stream = b"".join(pieces)
+    frames, pos = [], 0          # (offset, bit-level reading) of every frame header of the stream
+    while pos + 10 <= len(stream):
+        d = spec_decode(list(stream[pos:pos + 10]))
+        if d == "E":
+            break
+        frames.append((pos, d))
+        pos += 10 + int(d.split(".")[2])
+    cuts, acc = [], 0
+    for pc in pieces[:-1]:
+        acc += len(pc)
+        cuts.append(acc)
+    ctx = "%s; the peer sends %s (frame headers at offsets %s: %s) and the connection delivers it with a read-deadline error (%s) after byte(s) %s" % (
+        describe_state(case["cfg"], case["hist"]), stream.hex(), [p for p, _ in frames], [d for _, d in frames],
+        "os.ErrDeadlineExceeded" if case["errkind"] == "t" else "net.OpError wrapping it", cuts or "none")
+    tok, _, offered = g.partition("!o=")
+    got = [] if tok == "-" else tok.split(",")
+    want = [d for _, d in frames]
+    if got != want[:len(got)]:
+        k = next(i for i, x in enumerate(got) if i >= len(want) or x != want[i])
+        where = [p for p in range(len(stream) - 9) if spec_decode(list(stream[p:p + 10])) == got[k]]
+        return ("paused-read:header-not-at-frame-boundary", "%s: the read side reports header #%d = %s, which is %s; the header of frame #%d is %s" % (
+            ctx, k, got[k], "the reading of bytes %d..%d of the stream, not the start of a frame" % (where[0], where[0] + 9) if where
+            else "not the reading of any 10 bytes at a frame boundary", k, want[k] if k < len(want) else "(no such frame)"), True)
+    if offered:
+        return ("paused-read:handler-header-differs", "%s: reported %s but the handlers were offered %s" % (ctx, tok, offered), True)
+    return ("model-mismatch:paused-read", "%s: the read side reports %s (an initial part of the frame headers); the model says %s" % (ctx, g, o), False)
 
 
 def judge_single(case, g, o):
@@ -915,6 +998,8 @@ def run(tier, seed, replay=None):
         "send paths: the ways to put a type on the connection are taken to be newMessage (unexported, shared), NewHdrOnlyMsg, NewByteMessage, Client.SendNoWait/SendMessage/SendFor "
         "(the exported API has no other constructor of Message; Header fields are unexported); payloads are zero bytes; the peer answers SendMessage/SendFor with an ErrorMessage header "
         "carrying the ID it received; CloseConnection (14) ends a request line because the write loop stops after it by design",
+        "paused streams: 'a pause longer than the read deadline' is the in-memory connection returning a deadline error from Read (0 bytes) between two pieces, without real waiting; "
+        "in the waiting-for-the-first-message state the first frame is a well-formed connection-success event",
         "failing connections: faults are injected by the in-memory connection (Write takes k bytes and returns an error); a net.Conn returns n < len(p) only with an error; "
         "'the write loop carried on' is observed through a marker message queued behind the message under test",
         "the Header version field (uint8) is not refused by the encoder when above 7; the property does not demand it (Example C19_note_version_unchecked)",
@@ -944,12 +1029,12 @@ def run(tier, seed, replay=None):
     if reqs is None:
         st_reqs, n_states = gen_state_requests(tier, seed)
         reqs = gen_requests(tier, seed) + gen_batch_requests(tier, seed) + gen_frag_requests(tier, seed) + st_reqs \
-            + gen_send_requests(tier, seed)
+            + gen_send_requests(tier, seed) + gen_paused_requests(tier, seed)
         # the list is answered in 4 contiguous parts: deal the requests out so that every part gets
         # an even share of every kind
         reqs = [r for k in range(4) for r in reqs[k::4]]
 
-    evals = nontriv = frag_headers = batch_samples = state_samples = send_samples = 0
+    evals = nontriv = frag_headers = batch_samples = state_samples = send_samples = paused_samples = 0
     dist, samples = {}, []
     if reqs:
         text = "\n".join(reqs) + "\n"
@@ -998,6 +1083,13 @@ def run(tier, seed, replay=None):
                 dist[kind] = dist.get(kind, 0) + ntok * npat
                 nontriv += (ntok - rej) * npat
                 frag_headers += ntok
+            elif kind == "rpz":
+                evals += 1
+                dist[kind] = dist.get(kind, 0) + 1
+                nontriv += g != "-"
+                if paused_samples < 3 and g != "-" and req.count("/") >= 1:
+                    paused_samples += 1
+                    samples.append(dict(request=req[:300], go=g[:200], model=o[:200]))
             elif kind in ("snd", "wfl"):
                 toks = g.split(" ")
                 evals += len(toks)
@@ -1093,7 +1185,9 @@ def run(tier, seed, replay=None):
              "connected client, for all 65536 values of the message type on the client that negotiated 1.1 and a dense sample with all boundaries on three other states: refused, or "
              "the bytes the peer received; failing connections (wfl) = the connection's Write takes 0..10 bytes of the header and fails (deadline error plain / as net.OpError, "
              "closed pipe, broken pipe; later writes accepted or failing; clients with and without timeout; several states), writeHeader directly and a message through the write loop "
-             "followed by a marker message: what is reported and what the peer received; table cases = the 1024 type codes. "
+             "followed by a marker message: what is reported and what the peer received; paused streams (rpz) = three frames back to back (the first message of a connection, or later ones, in 14 "
+             "connection states, clients with and without timeout) delivered in pieces with a read-deadline error between consecutive pieces: after k = 0..10 bytes of the first and of the "
+             "second header, inside a payload, two and three pauses: the headers the read side reports (logger) and offers (handlers); table cases = the 1024 type codes. "
              "All cases of a run are distinct by construction (lists de-duplicated). Non-trivial: a header case that the implementation "
              "accepts (answer is not E), a table code that can be instantiated; counted from the Go answers." % (DEC_LENS, ENC_LENS, n_states),
         samples=samples, input_distribution=dist, traces_validated_against_impl=evals,
